@@ -15,6 +15,8 @@ pub enum FaultMix {
     /// a rare legal draw (0 or the largest value) forced at a random position
     ExtremeDraw,
     StepFail,
+    /// (PSO) the population is resized behind the swarm state in a fraction of the runs
+    SwarmResize,
 }
 
 pub struct TemplateWorld {
@@ -55,6 +57,12 @@ impl World for TemplateWorld {
             FaultMix::ExtremeDraw => {
                 if fg.chance(0.7) {
                     case.fault = TFault::ExtremeDraw { at: fg.below(400) as u64, max: fg.chance(0.5) };
+                }
+            }
+            FaultMix::SwarmResize => {
+                if fg.chance(0.2) {
+                    let iters = match case.term { Term::Iterations(n) => n, Term::Evaluations(_) => 4 };
+                    case.fault = TFault::SwarmResize { at_iter: fg.below(iters.max(1) as usize) as u32, grow: fg.chance(0.4), first: fg.chance(0.5) };
                 }
             }
             FaultMix::StepFail => {
@@ -165,6 +173,10 @@ pub struct IdCase {
     pub iterations: u32,
     pub seed: u64,
     pub problem: crate::tw::problems::RealSpec,
+    /// where the loop body evaluates: 0 = directly, 1 = only in the else body of an if/else whose
+    /// condition never holds, 2 = only in the if body of a branch whose condition always holds
+    #[serde(default)]
+    pub placement: u8,
 }
 
 pub struct EvalIds;
@@ -173,9 +185,15 @@ fn id_config<I: mahf::identifier::Identifier>(c: &IdCase, cond: Box<dyn mahf::Co
     use mahf::components::{boundary, initialization, mutation};
     mahf::Configuration::builder()
         .do_(initialization::RandomSpread::new(c.population))
-        .evaluate_with::<I>()
-        .update_best_individual()
-        .while_(cond, |b| b.do_(mutation::NormalMutation::new_dev(0.1)).do_(boundary::Saturation::new()).evaluate_with::<I>().update_best_individual())
+        .while_(cond, |b| {
+            let b = b.do_(mutation::NormalMutation::new_dev(0.1)).do_(boundary::Saturation::new());
+            match c.placement {
+                1 => b.if_else_(mahf::conditions::RandomChance::new(0.0), |x| x, |x| x.evaluate_with::<I>()),
+                2 => b.if_(mahf::conditions::RandomChance::new(1.0), |x| x.evaluate_with::<I>()),
+                _ => b.evaluate_with::<I>(),
+            }
+            .update_best_individual()
+        })
         .build()
 }
 
@@ -192,7 +210,7 @@ impl World for EvalIds {
                 registered.push(id);
             }
         }
-        IdCase { requested: g.below(3) as u8, registered, population: g.below(6) as u32, iterations: g.below(5) as u32, seed: g.u64(), problem: crate::tw::problems::gen_real(&mut g, false, 3) }
+        IdCase { requested: g.below(3) as u8, registered, population: g.below(6) as u32, iterations: g.below(5) as u32, seed: g.u64(), problem: crate::tw::problems::gen_real(&mut g, false, 3), placement: g.below(3) as u8 }
     }
     fn execute(&self, c: &IdCase) -> Outcome<IdCase> {
         use crate::tw::problems::*;
@@ -238,7 +256,7 @@ impl World for EvalIds {
         let present = c.registered.contains(&c.requested);
         bump(&mut out.counters, if present { "probe:requested identifier registered" } else { "fault:wrong-evaluator-id" }, 1);
         let mut fp = crate::rng::Fp::new();
-        fp.str(&format!("{}{:?}{}{}", c.requested, c.registered, c.population, c.iterations));
+        fp.str(&format!("{}{:?}{}{}{}", c.requested, c.registered, c.population, c.iterations, c.placement));
         out.fingerprints.push(fp.0);
         let v = match (&r, present) {
             (Err(p), _) => Some(Violation::new("evaluator-identifier-panic", format!("requested {} registered {:?}: panicked: {p}", c.requested, c.registered))),
@@ -281,7 +299,7 @@ pub fn run_c16(tier: Tier, seed: u64, known: &KnownFindings) -> CheckReport {
 }
 
 pub fn run_c18(tier: Tier, seed: u64, known: &KnownFindings) -> CheckReport {
-    let w = TemplateWorld { prop: "C18", world_name: "templates-c18", kinds: vec![Kind::Pso], penalty: 0.2, faults: FaultMix::None, max_iters: (25, 80), evaluations_term: false, log: false, key_steps: &["ParticleVelocitiesUpdate"] };
+    let w = TemplateWorld { prop: "C18", world_name: "templates-c18", kinds: vec![Kind::Pso], penalty: 0.2, faults: FaultMix::SwarmResize, max_iters: (25, 80), evaluations_term: false, log: false, key_steps: &["ParticleVelocitiesUpdate"] };
     let b = run_batch(&w, &mk("C18", "pso-runs", seed, tier, tier.pick(150_000, 3_000_000), known));
     report("C18", tier, seed, "PSO template runs over swarm sizes 1..12, dimension 1..5, c1,c2 in {0} u (0,3], weights in [0,1.2], v_max from 1e-3 to 10 domain widths; after every velocity update: |v| <= v_max, x_after == x_before + v_after exactly, v_after within the interval the update rule allows for the STORED inertia weight (an equality when c1 = c2 = 0); after the linear mapping: weight == start + (end-start)*progress exactly; personal best == best value the particle was ever evaluated at, never worse; global best value == min personal best; the three collections have equal length after every step; non-trivial = at least one velocity update executed", vec![b], &[])
 }
